@@ -4,7 +4,7 @@ REPO=${REPO:-/repo}; export PZ_REPO=$REPO   # the batteries may be pointed at a 
 # Output: one line per seed: <id> <property> detected|MISSED|patch-does-not-apply  [rules]
 if [ -n "$(git -C $REPO status --porcelain)" ]; then echo "REPO DIRTY - refusing"; exit 3; fi
 cd /verif
-for d in seeded/*/; do
+for d in ${ONLY:-seeded/*/}; do
   id=$(basename $d)
   [ -f $d/patch.diff ] || continue
   prop=$(python3 -c "import json;print(json.load(open('$d/meta.json'))['property'])" 2>/dev/null || echo ${id%%-*})
